@@ -380,6 +380,24 @@ def check_force_honoured(ctx):
               "no path of the run examines case.force_failure", construct=f"{RUNTEST}:RunTest._run_core::force-read")
 
 
+def verdict_outcomes(ctx, name):
+    """{(verdict, 'val'|'exc', force_failure set?)} over the paths of TestCase.assertThat / expectThat or assertions.assert_that,
+    with matcher.match() returning a symbolic verdict (none / mismatch)."""
+    classes = ctx.classes
+    if name == "assert_that":
+        recv, f = None, module_function(ctx, "testtools.assertions", "assert_that")
+    else:
+        recv = classes.get(TESTCASE, "TestCase")
+        f = own_method(ctx, TESTCASE, "TestCase", name)
+    dom = _VerdictDomain(classes, recv)
+    it = Interp(dom, max_depth=4)
+    res = it.analyze(f, {}, State(), receiver=recv, name=name)
+    ctx.stats["states"] += it.steps
+    for fn in it.functions:
+        ctx.analysed(fn)
+    return f, {(r.state.get("ev.verdict", "?"), r.kind, r.state.get("ev.forced", 0)) for r in res}
+
+
 def check_assert_iff(ctx):
     classes = ctx.classes
     tc = classes.get(TESTCASE, "TestCase")
